@@ -68,7 +68,7 @@ def run_one(m):
             return m, "FAIL", "neutral variant raised exit %d" % r.returncode, out
         if r.returncode != 1:
             return m, "FAIL", "breaking variant not reported (exit %d)" % r.returncode, out
-        hits = re.findall(r"^  rule (\S+) .* in (\w+): ", out, re.M)
+        hits = re.findall(r"^  rule (\S+) \(.*?\) at \S+ in ([\w.]+): ", out, re.M)
         want_rule = m.get("rule")
         want_func = m.get("func")
         for rule, func in hits:
